@@ -12,7 +12,7 @@ out=$wt/out/$n
 export GOFLAGS=-mod=mod GOPROXY=off GOSUMDB=off
 export GOCACHE=$(go env GOCACHE) GOMODCACHE=$(go env GOMODCACHE) GOPATH=$(go env GOPATH)
 cd $wt || exit 2
-git checkout -q -- . ; git clean -fdq -e out
+git reset -q --hard 2>/dev/null; git checkout -q -- . ; git clean -fdq -e out
 # bring the scratch worktree to /repo's current HEAD (fixes committed since the seed was made)
 git checkout -q --detach $(git -C /repo rev-parse HEAD) 2>/dev/null
 pkg=$(python3 -c "import json;print(json.load(open('$out/meta.json')).get('demo_package_dir','.'))")
@@ -39,5 +39,5 @@ for p in $props; do
   sig=$(grep -m3 "signature=" $out/vcheck_$p.log | sed 's/.*signature=//' | tr '\n' ';')
   line="$line $p=$rc[$sig]"
 done
-git checkout -q -- . ; git clean -fdq -e out
+git reset -q --hard 2>/dev/null; git checkout -q -- . ; git clean -fdq -e out
 echo "$line"
